@@ -11,11 +11,6 @@ import (
 	"testing"
 )
 
-func c20Count(w *verifW, key string, n int) {
-	v, _ := w.Extra[key].(int)
-	w.Extra[key] = v + n
-}
-
 func c20GenCfg(r *rand.Rand) c20Raw {
 	var c c20Raw
 	c.Mode = 1 + r.Intn(3)
